@@ -23,6 +23,7 @@ def specs_for(ctx):
         specs.append(json.loads(f.read_text()))
     specs += opskit.all_orders_specs(ctx.rng)
     specs += opskit.precondition_specs(ctx.rng, ctx.n(6, 60))
+    specs += opskit.empty_population_specs()  # correspondence only: outside the claim (non-empty populations)
     specs += opskit.merge_specs(ctx.rng, ctx.n(12, 120))
     specs += opskit.boundary_selection_specs(ctx.rng, ctx.n(40, 400))
     specs += opskit.mutation_after_speciation_specs(ctx.rng, ctx.n(15, 150))
